@@ -151,8 +151,8 @@ ADDENDA = {
     'C12': ' Tie by TRANSLATION for the explicit scheme: translate_pure.py --only polexpl regenerates Generated/PolExplGen.lean from general_poloidal_advection_step_expl (spline evaluations and f_eq as uninterpreted functions, float % as a - b*floor(a/b), pi a parameter) and Props/C12Gen.lean proves gen_pol_expl_eq (every node gets what the model\'s explicit step prescribes; contract: the cross-evaluation tables equal the scalar evaluator at the nodes) and gen_pol_expl_heun_inside; target polimpl regenerates general_poloidal_advection_step_impl and Props/C12Gen2.lean proves gen_impl_sweep_eq, gen_impl_while_eq and gen_pol_impl_eq (whenever the model\'s implicit step returns with fuel N the generated function returns the same field with N+1 loop tests; termination not claimed); Props/C12Gen3.lean discharges the table contract of both ties with the generated eval_spline_2d_cross (gen_pol_expl_eq_nu/_cu, gen_pol_impl_eq_nu/_cu); Props/C12NonTerm.lean: pol_impl_need_not_terminate (known finding F28).',
     'C13': ' Props/C13Extra.lean: fd_converges_with_order (the analytic clause, via Taylor with Lagrange remainder), fd_error_explicit, fd_converges_uniformly, pargrad_converges_with_order.',
     'C18': ' Props/C18Extra.lean: constants_order_independent (full clause), constants_success_iff_resolvable, constants_run_is_solution. Props/C18Rp.lean: the parser with the setters of rMin / rMax and set_defaults (constants_rp_explicit, constants_rp_derived, constants_rp_order_independent, constants_print_parse_roundtrip_rp, old_parser_rp_depends_on_order).',
-    'C06': ' Props/C06Traces.lean: handler_traces_projection (for EVERY handler, route map and sequence of transposes the predicted per-rank traces are the projections of one explicit event list), directTrace_members_agree, early_exit_consistent, handler_transposes_never_deadlock; Props/C06SwapperTraces.lean: the same for the LayoutSwapper (swapper_traces_projection, crossTrace_members_agree, swapper_transposes_never_deadlock) under CommOK (the constructor chose its communicators; proved for the driver swapper). early_exit_old_inconsistent / swapper_early_exit_inconsistent are the kernel-checked witnesses of the defects F15 / F16b found by this proof attempt and repaired in /repo. Props/C06Extra.lean: route_deterministic (any two iteration orders give the same routes/distances/connectedness for distinct names), route_canonical (graph distance, lexicographically least shortest path), route_nodup_needed.',
-    'C05': ' C05.timestep_decomposition_independent (Props/C15Extra.lean, over the loop body REGENERATED from fullSimulation.py): runs on two decompositions whose grid-level operators assemble to the same global operators agree, for a step and for a whole run. Props/C05Extra.lean: wiring_operators_independent derives that hypothesis from the wiring theorems, giving timestep_decomposition_independent_wiring / timestep_wiring_serial with only kernels and layout contracts as parameters. Tie by TRANSLATION for the initialisation functions: translate_pure.py --only initfuncs regenerates Generated/InitFuncsGen.lean from initialiser_funcs.py (exp, tanh, cos, sqrt, pi uninterpreted) and Props/C05Gen.lean proves the closed formulas (n0, Ti, Te, perturbation, f_eq, init_f) and gen_init_f_flux_eq / gen_init_f_pol_eq / gen_init_f_vpar_eq / gen_feq_vector_eq (every entry of the filled array is the scalar function at that entry\'s OWN coordinates, nothing else written).',
+    'C06': ' Props/C06Traces.lean: handler_traces_projection (for EVERY handler, route map and sequence of transposes the predicted per-rank traces are the projections of one explicit event list), directTrace_members_agree, early_exit_consistent, handler_transposes_never_deadlock; Props/C06SwapperTraces.lean: the same for the LayoutSwapper (swapper_traces_projection, crossTrace_members_agree, swapper_transposes_never_deadlock) under CommOK (the constructor chose its communicators; proved for the driver swapper). early_exit_old_inconsistent / swapper_early_exit_inconsistent are the kernel-checked witnesses of the defects F15 / F16b found by this proof attempt and repaired in /repo. Props/C06Extra.lean: route_deterministic (any two iteration orders give the same routes/distances/connectedness for distinct names), route_canonical (graph distance, lexicographically least shortest path), route_nodup_needed. Tie by TRANSLATION for the route search: harness/translate_routes.py regenerates Generated/RoutesGen.lean from LayoutManager._makeConnectionMap (dicts with their keys, the iteration order of the set as a universally quantified parameter) and Props/C06Gen.lean proves gen_routes_eq (generated = Handler.routeMap: same flag, same keys, same routes, for every connection table, every order, fuel >= n), gen_routes_val_eq and gen_routes_deterministic (flag and route map do not depend on the iteration order of the set, i.e. on the string-hash seed). Props/C06Traces.lean also has the collectives of a checkpoint (checkpoint_trace_rank_independent, checkpoint_trace_old_plot_rank_differs: finding F30).',
+    'C05': ' C05.timestep_decomposition_independent (Props/C15Extra.lean, over the loop body REGENERATED from fullSimulation.py): runs on two decompositions whose grid-level operators assemble to the same global operators agree, for a step and for a whole run. Props/C05Extra.lean: wiring_operators_independent derives that hypothesis from the wiring theorems, giving timestep_decomposition_independent_wiring / timestep_wiring_serial with only kernels and layout contracts as parameters. Tie by TRANSLATION for the initialisation functions: translate_pure.py --only initfuncs regenerates Generated/InitFuncsGen.lean from initialiser_funcs.py (exp, tanh, cos, sqrt, pi uninterpreted) and Props/C05Gen.lean proves the closed formulas (n0, Ti, Te, perturbation, f_eq, init_f) and gen_init_f_flux_eq / gen_init_f_pol_eq / gen_init_f_vpar_eq / gen_feq_vector_eq (every entry of the filled array is the scalar function at that entry\'s OWN coordinates, nothing else written). Tie by TRANSLATION for the grid-level loops: harness/translate_gridops.py regenerates Generated/GridOpsGen.lean from the gridStep methods of advection.py, DensityFinder, the two solveEquation loops and the three initialise_* (Grid accessors mapped to Model/GridApi.lean) and Props/C05Gen2.lean proves that the generated call lists are those of Model/Wiring.lean (gen_flux_eq, gen_vpar_eq, gen_pol_eq, gen_density_eq, gen_solve_eq, gen_init_eq) and hence gen_wiring_*: every slice is processed with the parameters of its own global indices; 65 decide examples recorded from the real methods.',
     'C08': ' Props/C08Extra.lean: marsden_identity, polynomial_in_spline_space, greville_reproduces_identity, poly_reproduction (full clause; injectivity of the collocation matrix is the one explicit hypothesis).',
     'C09': ' Props/C09Extra.lean: integrals_antiderivative (full clause for sorted knots with simple interior knots), periodic_tail_antiderivative, interior_integral_full, uniform_periodic_equal_weights_low_degree (degrees 1-6 unconditional; >=7 under unisolvence).',
 }
